@@ -130,6 +130,10 @@ class World(WsWorld):
         else:
             self.gen_stream()
         self.first_emit = True
+        # the application may start its own closing handshake while the stream is still arriving: what follows is
+        # judged in CLOSING state (safety half only, see final())
+        self.local_close_planned = (not sweep) and ch.flag("local-close", 0.15)
+        self.local_closed = False
 
     # --- stream generation ---------------------------------------------------------------------------
     def mask(self):
@@ -334,6 +338,8 @@ class World(WsWorld):
             acts.append((5.0, "emit", self.emit))
         elif self.fin_after and not self.peer.closed:
             acts.append((1.0, "peer-fin", self.peer_fin))
+        if self.local_close_planned and not self.local_closed and self.e.p._st == 3:
+            acts.append((1.2, "app-close", self.app_close))
         return acts
 
     def emit(self):
@@ -344,6 +350,12 @@ class World(WsWorld):
         self.stream += data
         self.run.abstract("emit", short(data, 0))
         self.peer.send(data)
+
+    def app_close(self):
+        self.local_closed = True
+        self.run.fault("local-close-in-flight")
+        self.run.log("app", "sendClose", 1000)
+        self.fw.call(self, self.e.p.sendClose, 1000, "bye")
 
     def peer_fin(self):
         self.peer.fin()
@@ -413,6 +425,8 @@ class World(WsWorld):
             run.violate(self.P + ".%s" % suffix, sig, detail)
         if ref.undelivered_text or getattr(self, "garbage", False):
             return  # undecodable compressed data: outside the statement
+        if self.local_closed:
+            return self.final_local_close(ref, got, exp, m)
         if got != exp and not getattr(self, "_rep", False):
             self.report(got, exp, ref)
         # ping-answered: pongs on the wire == pings of the well-formed prefix, in order, same payload.
@@ -463,6 +477,25 @@ class World(WsWorld):
                 run.probe("peer-close-ends-prefix")
                 if m.close_count != 1 and not ref.violation_either:
                     run.violate(self.P + ".fail-policy", "peer-close-not-answered:%d" % m.close_count, "")
+
+    def final_local_close(self, ref, got, exp, m):
+        """Our own close frame (1000) went out while the stream was arriving.  The statement speaks of open
+        connections, so completeness (every message / pong of the prefix) is not demanded here; what stays is
+        safety: nothing outside the reference prefix is delivered (checked at every step), no wrong pong, no second
+        close frame, and a violation still ends the connection."""
+        run = self.run
+        e = self.e
+        exp_pongs = [d[1] for d in exp if d[0] == "ping"]
+        got_pongs = [pl for op, pl in m.controls if op == 10]
+        if got_pongs != exp_pongs[:len(got_pongs)]:
+            run.violate(self.P + ".ping-answered", "pong-missing-or-wrong", "pongs %r for pings %r (local close in flight)" % (
+                [p[:8] for p in got_pongs], [p[:8] for p in exp_pongs]))
+        if m.close_count != 1:
+            run.violate(self.P + ".fail-policy", "close-frames:%d:local-close-in-flight" % m.close_count, repr(ref.violation))
+        if ref.violation is not None:
+            run.probe("violation-during-local-close:" + ref.violation[0])
+            if e.closed_cb is None:
+                run.violate(self.P + ".fail-policy", "not-dropped-after-violation:local-close-in-flight", repr(ref.violation))
 
     def fw_aborted(self):
         t = self.e.t
